@@ -122,23 +122,26 @@ type caseRun struct {
 	srv     []*sideRes
 	sids    []uint32
 	// man in the middle
-	fired      bool
-	lenChange  bool
-	genuine    bool // the bytes delivered are all genuine boxes at their positions (swap / padding only)
-	*connState      // the first TCP connection of the case (the one that is mutated) / the UDP flow
-	nconn      int
-	sidIdx     map[uint32]int       // session id -> script index (from the case header in the first payload)
-	dgBySeq    [2]map[string][]byte // UDP: data datagrams by direction and "sid/seq" (for reflection)
-	dgBoxes    [2]map[string][]box
-	gap        bool // the close-with-data-in-flight family
-	gapDir     int
-	gapSeq     uint32
-	gapEvents  []string // what reached the receiving session, in order: A:seq:payload | C
-	gapHits    int
-	ucases     []string
-	uimpls     []string
-	now        int64
-	panicked   string
+	fired         bool
+	lenChange     bool
+	genuine       bool // the bytes delivered are all genuine boxes at their positions (swap / padding only)
+	*connState         // the first TCP connection of the case (the one that is mutated) / the UDP flow
+	nconn         int
+	sidIdx        map[uint32]int       // session id -> script index (from the case header in the first payload)
+	dgBySeq       [2]map[string][]byte // UDP: data datagrams by direction and "sid/seq" (for reflection)
+	dgBoxes       [2]map[string][]box
+	gap           bool // the close-with-data-in-flight family
+	gapDir        int
+	gapSeq        uint32
+	gapEvents     []string // what reached the receiving session, in order: A:seq:payload | C
+	gapHits       int
+	reflectSid    uint32 // UDP reflect: the session whose own datagram was fed back
+	closeSeen     bool   // a close request of that session has been seen after the reflection
+	reflectClosed bool   // ... and the first one came from the side that received the reflected datagram
+	ucases        []string
+	uimpls        []string
+	now           int64
+	panicked      string
 }
 
 type connState struct {
@@ -841,6 +844,12 @@ func (e *env) udpMitm(cr *caseRun, dir, k int, data []byte) []simnet.Delivery {
 		}
 		return []simnet.Delivery{{}}
 	}
+	if mut != nil && mut.kind == "reflect" && cr.fired && !cr.closeSeen && seg.Meta.SessionID == cr.reflectSid &&
+		(seg.Meta.Proto == rc.CloseSessionRequest || seg.Meta.Proto == rc.CloseSessionResponse) {
+		// who ends the session after the reflection: the receiver of the reflected datagram sends in direction 1-mut.dir
+		cr.closeSeen = true
+		cr.reflectClosed = seg.Meta.Proto == rc.CloseSessionRequest && dir == 1-mut.dir
+	}
 	if k < 40 && len(cr.boxes[dir]) < 60 {
 		// keep the first datagrams for the sweeps
 		cr.boxes[dir] = append(cr.boxes[dir], box{nonce: []byte{byte(len(cr.orig[dir]))}})
@@ -865,6 +874,7 @@ func (e *env) udpMitm(cr *caseRun, dir, k int, data []byte) []simnet.Delivery {
 		out = own
 		bs = append(bs, cr.dgBoxes[1-dir][skey]...)
 		cr.fired, cr.lenChange = true, len(own) != len(data)
+		cr.reflectSid = seg.Meta.SessionID
 	case "metabox":
 		if seg.Meta.PayloadLen != 32 || seg.Meta.IsLowEntropy() {
 			return []simnet.Delivery{{}}
@@ -1105,13 +1115,26 @@ func (e *env) judge(cr *caseRun) {
 	} else {
 		R.Count(p.transport + ":e2e-ended-early")
 	}
-	if cr.gap || (cr.mut != nil && cr.mut.kind == "reflect") {
-		// prefix only: the gap family ends with a clean EOF after a prefix (the truncation is C03's finding); a reflected
-		// datagram is refused by its type and that refusal closes the session
+	if cr.gap || (cr.mut != nil && cr.mut.kind == "reflect" && p.transport == "tcp") {
+		// prefix only: the gap family ends with a clean EOF after a prefix (the truncation is C03's finding); on TCP the
+		// property only demands a prefix
 		if !complete {
 			R.Count(p.transport + ":" + cr.mut.kind + ":ended-after-prefix")
 		}
 		return
+	}
+	if cr.mut != nil && cr.mut.kind == "reflect" && !complete {
+		// UDP: a spliced datagram must be discarded as if lost and the stream must complete
+		cr.mu.Lock()
+		accepted := len(cr.uimpls) > 0 && strings.HasPrefix(cr.uimpls[0], "OK ")
+		byReceiver := cr.reflectClosed
+		cr.mu.Unlock()
+		if accepted && byReceiver {
+			R.Count("udp:reflect:session-closed-by-receiver")
+			rep("udp-reflected-own-datagram-closes-session", fmt.Sprintf("udp %s: the %s's own data datagram (same session id and sequence number) delivered to it in place of the peer's authenticates, is refused by its type, and the refusal closes the session: the first close request after the reflection came from the side that received it; the stream did not complete (cli=%v srv=%v)",
+				name, []string{"server", "client"}[cr.mut.dir], sideSum(cr.cli), sideSum(cr.srv)))
+			return
+		}
 	}
 	if p.transport == "udp" && !complete && !(cr.mut != nil && cr.mut.kind == "metabox") {
 		rep("udp-stream-not-completed", fmt.Sprintf("udp %s: a session did not complete intact although every retransmission was delivered unmodified (cli=%v srv=%v)", name, sideSum(cr.cli), sideSum(cr.srv)))
